@@ -167,6 +167,10 @@ Definition selected (h : holder) : list string :=
 Definition presentation_prefix (jwt : string) (ds : list string) : string :=
   fold_left (fun acc d => acc ++ "~" ++ d) ds jwt ++ "~".
 
+(* an SD-JWT is bound to a holder key when its payload has a cnf member that is not null - the same test in
+   Holder::build and Verifier::verify_raw (repair F23) *)
+Definition kb_bound (claims : json) : bool := negb (is_null (jget "cnf" claims)).
+
 (* what Holder::build hands to encode() for the KB-JWT: header and claims *)
 Definition kb_header (alg : json) : json := JObj [("alg", alg); ("typ", JStr "kb+jwt")].
 Definition kb_claims (aud nonce : string) (iat : json) (sd_hash : string) : json :=
@@ -182,7 +186,7 @@ Definition holder_build (O : oracles) (E : build_env) (h : holder) : out string 
   dO segs <- jwt_parts_m (h_jwt h);
   let '(_, cseg, _) := segs in
   dO claims <- of_res (o_claims O cseg);
-  let bound := jhas "cnf" claims in
+  let bound := kb_bound claims in
   if bound && (match h_kb h with Some _ => false | None => true end) then Fail
   else
     let prefix := presentation_prefix (h_jwt h) (selected h) in
